@@ -158,7 +158,7 @@ def r1_line_comment_discipline(w):
             # what follows the comment in the source, outside the iterated sub-sequence, is a line-breaking space
             peel = lambda interp, m, f, t, which: [Node('peel', 'Space', True)] if which == 'split_last' else [Node('peel', 'Space', False), None]
             peels = any(re.search(r'::(split_first|split_last)$', callee_path(t) or '') for _, t in b.calls())
-            res = evaluate_sequence(w, b, i, K, [LC, 'END'], with_wholes=True, edge_hint={'last': LC}, peel=peel if peels else None)
+            res = evaluate_sequence(w, b, i, K, [LC, 'END'], with_wholes=True, edge_hint={'last': LC}, peel=peel if peels else None, respect_kinds=True)
             cons = {'converter': last(b.short), 'parent': K, 'sequence': '<LineComment, END>'}
             if res is None:
                 r.bad(cons, '%s|%s|end|not-evaluated' % (last(b.short), K), 'the <LineComment, END> evaluation of %s exceeded its bounds' % b.short, b.loc())
